@@ -426,6 +426,10 @@ def run_check(prop, tier, seed, nshards):
     shutil.rmtree(os.path.join(VERIF, "evidence", "replays", prop), ignore_errors=True)
     for index, (key, entry) in enumerate(sorted(violations.items())):
         replay_paths.append(write_replay(prop, entry, index))
+    for key, hit in known_hits.items():
+        if key in known and hit.get("case") is not None:
+            write_replay(prop, {"sig": json.loads(key), "detail": "known finding " + known[key][0], "case": hit["case"]},
+                         "known-" + known[key][0])
 
     wall = time.time() - t0
     level = getattr(module, "LEVEL", "exploration")
